@@ -28,6 +28,8 @@ var kinds = map[string]kind{
 	"cls":   {genCls, runCls},
 	"ackr":  {genAckr, runAckr},
 	"share": {genShare, runShare},
+	"off":   {genOff, runOff},
+	"sel":   {genSel, runSel},
 }
 
 func TestMain(m *testing.M) {
